@@ -25,6 +25,51 @@ where Self: Sized {
 }
 
 
+//------------ read_exact_vec ------------------------------------------------
+
+/// The largest amount of memory we allocate on the say-so of a length field.
+const MAX_TRUSTED_LEN: usize = 0x1_0000;
+
+/// Reads exactly `len` bytes from `source` into a new vec.
+///
+/// The length typically comes from the data itself and cannot be trusted.
+/// Anything longer than 64 kBytes is therefore read piecemeal so that the
+/// memory allocated never exceeds what has actually been read by much. If
+/// `source` ends before `len` bytes have been read, an unexpected EOF error
+/// is returned.
+fn read_exact_vec<R: io::Read>(
+    source: &mut R, len: usize
+) -> Result<Vec<u8>, ParseError> {
+    if len > MAX_TRUSTED_LEN {
+        return read_large_vec(source, len)
+    }
+    let mut res = vec![0u8; len];
+    source.read_exact(&mut res)?;
+    Ok(res)
+}
+
+/// Reads exactly `len` bytes from `source` in chunks of 64 kBytes.
+fn read_large_vec<R: io::Read>(
+    source: &mut R, len: usize
+) -> Result<Vec<u8>, ParseError> {
+    let mut res = Vec::new();
+    let mut chunk = vec![0u8; MAX_TRUSTED_LEN];
+    let mut left = len;
+    while left > 0 {
+        let chunk = &mut chunk[..cmp::min(left, MAX_TRUSTED_LEN)];
+        source.read_exact(chunk)?;
+        append_chunk(&mut res, chunk);
+        left -= chunk.len();
+    }
+    Ok(res)
+}
+
+/// Appends a chunk to the data read so far.
+fn append_chunk(target: &mut Vec<u8>, chunk: &[u8]) {
+    target.extend_from_slice(chunk)
+}
+
+
 //------------ u8 ------------------------------------------------------------
 
 impl<W: io::Write> Compose<W> for u8 {
@@ -146,8 +191,7 @@ impl<R: io::Read> Parse<R> for uri::Rsync {
         let len = usize::try_from(u32::parse(source)?).map_err(|_| {
             ParseError::format("URI too large for this system")
         })?;
-        let mut bits = vec![0u8; len];
-        source.read_exact(&mut bits)?;
+        let bits = read_exact_vec(source, len)?;
         Self::from_bytes(bits.into()).map_err(|err| {
             ParseError::format(format!("bad URI: {err}"))
         })
@@ -174,8 +218,7 @@ impl<R: io::Read> Parse<R> for uri::Https {
         let len = usize::try_from(u32::parse(source)?).map_err(|_| {
             ParseError::format("URI too large for this system")
         })?;
-        let mut bits = vec![0u8; len];
-        source.read_exact(&mut bits)?;
+        let bits = read_exact_vec(source, len)?;
         Self::from_bytes(bits.into()).map_err(|err| {
             ParseError::format(format!("bad URI: {err}"))
         })
@@ -211,8 +254,7 @@ impl<R: io::Read> Parse<R> for Option<uri::Https> {
         let len = usize::try_from(len).map_err(|_| {
             ParseError::format("URI too large for this system")
         })?;
-        let mut bits = vec![0u8; len];
-        source.read_exact(&mut bits)?;
+        let bits = read_exact_vec(source, len)?;
         uri::Https::from_bytes(bits.into()).map_err(|err| {
             ParseError::format(format!("bad URI: {err}"))
         }).map(Some)
@@ -239,8 +281,7 @@ impl<R: io::Read> Parse<R> for Bytes {
         let len = usize::try_from(u64::parse(source)?).map_err(|_| {
             ParseError::format("data block too large for this system")
         })?;
-        let mut bits = vec![0u8; len];
-        source.read_exact(&mut bits)?;
+        let bits = read_exact_vec(source, len)?;
         Ok(bits.into())
     }
 }
@@ -271,8 +312,7 @@ impl<R: io::Read> Parse<R> for Option<Bytes> {
         let len = usize::try_from(len).map_err(|_| {
             ParseError::format("data block large for this system")
         })?;
-        let mut bits = vec![0u8; len];
-        source.read_exact(&mut bits)?;
+        let bits = read_exact_vec(source, len)?;
         Ok(Some(bits.into()))
     }
 }
@@ -410,7 +450,7 @@ where
         // to be very big. We will hit the end of file if it was during
         // reading, so I don’t think we need any additional measures?
         let mut res = HashMap::with_capacity(
-            cmp::max(len, 65536)
+            cmp::min(len, 65536)
         );
         
         for _ in 0..len {
